@@ -77,6 +77,26 @@ def _callee_still_accepts(ix, table, callee: str, ref_call, lost_kw) -> bool:
     return True
 
 
+_owner_cache = None
+
+
+def anchor_owner_counts():
+    """module -> number of properties that list the file among their anchors"""
+    global _owner_cache
+    if _owner_cache is None:
+        c = {}
+        with open(_PROPS) as f:
+            for line in f:
+                d = json.loads(line)
+                for p in d["anchors"]["files"]:
+                    m = p[:-3].replace("/", ".")
+                    if m.endswith(".__init__"):
+                        m = m[: -len(".__init__")]
+                    c[m] = c.get(m, 0) + 1
+        _owner_cache = c
+    return _owner_cache
+
+
 def make_rule(prop: str):
     def rule(ctx):
         ix = ctx.index
@@ -167,4 +187,304 @@ def make_rule(prop: str):
         ctx.count("quantified tests compared with the reference", nq)
         ctx.count("parameters compared with the reference", npar)
         ctx.floor("functions of the anchor files compared with the reference tree", nf, 10)
+    return rule
+
+
+# ------------------------------------------------------------------------------------------------------------------------------------------------------
+# T2: small edits of confirmed mechanism functions
+#
+# For the functions that implement a property (tables/relevance.json: the property's own mechanism line ranges, the functions its rules examine, the functions its
+# confirmed seeded changes edit) the normal form on the reference tree is kept (`src` in ref_locals.json).  If the current normal form differs from it ONLY by at most
+# two small expression substitutions, one deleted effectful statement or one added early exit - the shapes of an operator / boundary / constant / wrong-variable /
+# lost-update / too-wide-shortcut slip - the function no longer is the confirmed one in a way no behaviour-preserving edit produces, and that is reported.  Any larger
+# or structural difference (a rewrite, an extracted helper, added validation, logging, ...) is "not comparable" and left to the other rules.
+RELEVANCE_PATH = os.path.join(os.path.dirname(__file__), "tables", "relevance.json")
+_rel_cache = None
+MAX_EDITS = 2
+MAX_NODES = 14
+
+
+def relevance(prop):
+    global _rel_cache
+    if _rel_cache is None:
+        try:
+            _rel_cache = json.load(open(RELEVANCE_PATH))
+        except FileNotFoundError:
+            _rel_cache = {}
+    return _rel_cache.get(prop, {})
+
+
+def _strip(fn):
+    """body without docstring; nested defs replaced by a marker (they are compared on their own)"""
+    body = list(fn.body)
+    if body and isinstance(body[0], ast.Expr) and isinstance(body[0].value, ast.Constant) and isinstance(body[0].value.value, str):
+        body = body[1:]
+    return body
+
+
+def _size(n):
+    return sum(1 for _ in ast.walk(n))
+
+
+def _dump(n):
+    if isinstance(n, (ast.FunctionDef, ast.AsyncFunctionDef, ast.ClassDef)):
+        return f"<def {n.name}>"
+    if isinstance(n, ast.Call):         # keyword order is irrelevant
+        n2 = ast.Call(func=n.func, args=n.args, keywords=sorted(n.keywords, key=lambda k: k.arg or ""))
+        return ast.dump(n2)
+    return ast.dump(n)
+
+
+class _Diff:
+    def __init__(self):
+        self.edits = []          # (kind, old_text, new_text)
+        self.structural = False
+
+    def stmts(self, a, b):
+        if self.structural:
+            return
+        a, b = [x for x in _lin(a) if not _ignorable(x)], [x for x in _lin(b) if not _ignorable(x)]
+        da, db = [_dump(x) for x in a], [_dump(x) for x in b]
+        if da == db:
+            return
+        if len(a) == len(b):
+            for x, y in zip(a, b):
+                if not isinstance(x, ast.If) and isinstance(y, ast.If) and not y.orelse and len(y.body) == 1 and _dump(y.body[0]) == _dump(x):
+                    self.edits.append(("made-conditional", _u(x).split("\n")[0], _u(y.test), None))
+                    continue
+                self.node(x, y)
+            return
+        if abs(len(a) - len(b)) == 1:
+            longer, shorter, added = (b, a, True) if len(b) > len(a) else (a, b, False)
+            dl, ds = ([_dump(x) for x in longer], [_dump(x) for x in shorter])
+            for i in range(len(longer)):
+                if dl[:i] + dl[i + 1:] == ds:
+                    self.edits.append(("stmt-added" if added else "stmt-deleted", "", "", longer[i]))
+                    return
+            # one statement added/deleted AND another changed: align around the odd one out by best prefix/suffix match
+            pre = 0
+            while pre < len(shorter) and dl[pre] == ds[pre]:
+                pre += 1
+            suf = 0
+            while suf < len(shorter) - pre and dl[-1 - suf] == ds[-1 - suf]:
+                suf += 1
+            if pre + suf >= len(shorter) - 1:
+                self.structural = True
+                return
+        self.structural = True
+
+    def node(self, a, b):
+        if self.structural:
+            return
+        if _dump(a) == _dump(b):
+            return
+        if isinstance(a, (ast.FunctionDef, ast.AsyncFunctionDef, ast.ClassDef)) or isinstance(b, (ast.FunctionDef, ast.AsyncFunctionDef, ast.ClassDef)):
+            if type(a) is type(b) and getattr(a, "name", None) == getattr(b, "name", None):
+                return          # nested definitions are compared through their own entries
+            self.structural = True
+            return
+        if type(a) is not type(b):
+            self._subst(a, b)
+            return
+        if isinstance(a, ast.stmt):
+            # same statement kind: compare fields
+            for f in a._fields:
+                va, vb = getattr(a, f, None), getattr(b, f, None)
+                self._field(va, vb)
+            return
+        # expressions: descend while shapes agree, otherwise substitute here
+        if isinstance(a, (ast.Name, ast.Constant, ast.Attribute)) and not (isinstance(a, ast.Attribute) and _dump(a.value) != _dump(b.value) and a.attr == b.attr):
+            self._subst(a, b)
+            return
+        before = len(self.edits)
+        for f in a._fields:
+            va, vb = getattr(a, f, None), getattr(b, f, None)
+            if isinstance(va, list) and isinstance(vb, list) and len(va) != len(vb):
+                del self.edits[before:]
+                self._subst(a, b)
+                return
+        for f in a._fields:
+            self._field(getattr(a, f, None), getattr(b, f, None))
+        if len(self.edits) - before > 1:
+            # several differences inside one expression: count them as one substitution of the expression if it is small
+            if _size(a) <= MAX_NODES and _size(b) <= MAX_NODES:
+                del self.edits[before:]
+                self._subst(a, b)
+
+    def _field(self, va, vb):
+        if self.structural:
+            return
+        if isinstance(va, list) and isinstance(vb, list):
+            if va and isinstance(va[0], ast.stmt) or vb and isinstance(vb[0], ast.stmt):
+                self.stmts(va, vb)
+                return
+            if len(va) != len(vb):
+                self.structural = True
+                return
+            if va and isinstance(va[0], ast.keyword):
+                va = sorted(va, key=lambda k: k.arg or "")
+                vb = sorted(vb, key=lambda k: k.arg or "")
+            for x, y in zip(va, vb):
+                if isinstance(x, ast.AST) and isinstance(y, ast.AST):
+                    self.node(x, y)
+                elif x != y:
+                    self.edits.append(("token", str(x), str(y), None))
+            return
+        if isinstance(va, ast.AST) and isinstance(vb, ast.AST):
+            if isinstance(va, (ast.operator, ast.cmpop, ast.unaryop, ast.boolop, ast.expr_context)):
+                if type(va) is not type(vb) and not isinstance(va, ast.expr_context):
+                    self.edits.append(("operator", type(va).__name__, type(vb).__name__, None))
+                return
+            self.node(va, vb)
+            return
+        if va is None and vb is None:
+            return
+        if isinstance(va, ast.AST) or isinstance(vb, ast.AST):
+            if va is None or vb is None:
+                self.edits.append(("token", _u(va), _u(vb), None))
+            return
+        if va != vb:
+            self.edits.append(("token", str(va), str(vb), None))
+
+    def _subst(self, a, b):
+        if _size(a) > MAX_NODES or _size(b) > MAX_NODES:
+            self.structural = True
+            return
+        self.edits.append(("expression", _u(a), _u(b), None))
+
+
+def _ignorable(st) -> bool:
+    """statements whose presence does not change what a correct run computes: assertions, pass, logging / printing, bare strings"""
+    if isinstance(st, (ast.Assert, ast.Pass)):
+        return True
+    if isinstance(st, ast.Expr):
+        if isinstance(st.value, ast.Constant):
+            return True
+        if isinstance(st.value, ast.Call):
+            f = _u(st.value.func)
+            return f.startswith("logger.") or f.startswith("logging.") or f in ("print", "warnings.warn") or f.endswith("stdout.flush")
+    return False
+
+
+def _lin(stmts):
+    """the reader's view of a block in the comparison normal form: an early exit `if c: A(ends in return/raise/...) else: T` is the guard `if c: A` followed by T"""
+    from .astutil import _ends
+    out = []
+    todo = list(stmts)
+    while todo:
+        st = todo.pop(0)
+        if isinstance(st, ast.If) and st.orelse and _ends(st.body):
+            g = ast.If(test=st.test, body=st.body, orelse=[])
+            ast.copy_location(g, st)
+            out.append(g)
+            todo = list(st.orelse) + todo
+        else:
+            out.append(st)
+    return out
+
+
+def _u(n):
+    if n is None:
+        return "<none>"
+    try:
+        return ast.unparse(n)
+    except Exception:
+        return ast.dump(n)[:80]
+
+
+def _is_early_exit(st) -> bool:
+    if not isinstance(st, ast.If):
+        return False
+    inner = [x for b in st.body for x in ast.walk(b)]
+    has_exit = any(isinstance(x, (ast.Return, ast.Continue, ast.Break)) for x in inner)
+    only_raise = all(isinstance(x, ast.Raise) or not isinstance(x, ast.stmt) for b in st.body for x in [b]) and not has_exit
+    return has_exit and not only_raise
+
+
+def _is_effectful(st) -> bool:
+    if isinstance(st, (ast.Assign, ast.AugAssign, ast.AnnAssign, ast.Return, ast.Delete, ast.For, ast.While, ast.If, ast.With, ast.Try)):
+        return True
+    if isinstance(st, ast.Expr) and isinstance(st.value, ast.Call):
+        f = _u(st.value.func)
+        return not (f.startswith("logger.") or f.startswith("logging.") or f in ("print", "warnings.warn") or f.endswith(".flush"))
+    return False
+
+
+def small_edits(ref_src: str, now_fn):
+    """list of edits, [] when equal, None when the difference is not a small edit"""
+    try:
+        ref_fn = ast.parse(ref_src).body[0]
+    except (SyntaxError, IndexError):
+        return None
+    d = _Diff()
+    # signature defaults matter (a changed default value is a small edit), annotations and decorators do not
+    ra, na = ref_fn.args, now_fn.args
+    rd = [_dump(x) for x in ra.defaults + [k for k in ra.kw_defaults if k is not None]]
+    nd = [_dump(x) for x in na.defaults + [k for k in na.kw_defaults if k is not None]]
+    if [x.arg for x in ra.posonlyargs + ra.args + ra.kwonlyargs] != [x.arg for x in na.posonlyargs + na.args + na.kwonlyargs]:
+        return None
+    if rd != nd:
+        if len(rd) != len(nd):
+            return None
+        for x, y in zip(ra.defaults + [k for k in ra.kw_defaults if k is not None], na.defaults + [k for k in na.kw_defaults if k is not None]):
+            d.node(x, y)
+    d.stmts(_strip(ref_fn), _strip(now_fn))
+    if d.structural:
+        return None
+    out = []
+    for kind, old, new, st in d.edits:
+        if kind == "stmt-added":
+            if not _is_early_exit(st):
+                return None        # added validation / logging / bookkeeping: not comparable
+            out.append(("early-exit-added", "", _u(st).split("\n")[0]))
+        elif kind == "stmt-deleted":
+            if not _is_effectful(st):
+                continue
+            out.append(("statement-deleted", _u(st).split("\n")[0], ""))
+        else:
+            out.append((kind, old, new))
+    if len(out) > MAX_EDITS:
+        return None
+    return out
+
+
+def make_t2(prop: str):
+    def rule(ctx):
+        ix = ctx.index
+        table = normalize.load_table()
+        rel = dict(relevance(prop))
+        if not rel:
+            raise AnchorMissing(f"no relevance table entry for {prop}")
+        # files that (at most one other property apart) belong to this property alone: every function in them is the property's business
+        owners = anchor_owner_counts()
+        for m in anchor_modules(prop):
+            if m in ix.modules and (owners.get(m, 1) <= 2 or os.environ.get("BNPSA_T2_FILES") == "1"):
+                for q in ix.module(m).functions:
+                    rel.setdefault(f"{m}::{q}", ["own-file"])
+        n = changed = 0
+        for key, sources in rel.items():
+            mod, qn = key.split("::", 1)
+            if mod not in ix.modules or qn not in ix.module(mod).functions:
+                continue        # a vanished function is reported by the rules that anchor on it
+            ref = table.get(mod, {}).get(qn)
+            fi = ix.module(mod).functions[qn]
+            if ref is None or not ref.get("src") or isinstance(fi.node, ast.Lambda):
+                continue
+            n += 1
+            if ref.get("digest") == normalize.digest(fi.node):
+                continue
+            edits = small_edits(ref["src"], fi.node)
+            if not edits:
+                continue        # equal after normalisation, or not comparable
+            changed += 1
+            for kind, old, new in edits:
+                what = {"expression": f"`{old}` became `{new}`", "operator": f"operator {old} became {new}", "token": f"`{old}` became `{new}`",
+                        "early-exit-added": f"new early exit `{new}`", "statement-deleted": f"`{old}` was removed",
+                        "made-conditional": f"`{old}` now runs only if `{new}`"}[kind]
+                ctx.ob(fi.where, f"{qn} ({'/'.join(sorted(set(sources)))} of {prop}) is still the form confirmed on the reference tree: it differs by a small edit of the kind "
+                       "that changes behaviour (operator / bound / constant / variable / lost statement / new shortcut), not by a refactoring", False, what[:200],
+                       key=f"{prop}-T2|{kind}|{mod}|{qn}|{old[:40]}|{new[:40]}")
+        ctx.count("mechanism functions compared with their confirmed form", n)
+        ctx.count("mechanism functions that changed by a small edit", changed)
+        ctx.floor("mechanism functions of the property present in the tree", n, 8)
     return rule
